@@ -1,5 +1,6 @@
 import GdslModel.Lemmas.Serde
 import GdslModel.Lemmas.Extra
+import GdslModel.Lemmas.Json
 /-!
 # C12 — serialisation round-trips
 `decompose s nval π` is what `Serialize` writes for a container whose hash map iterates in order
@@ -54,5 +55,25 @@ theorem Serde.roundtrip_incident_perm (s s' : Store K E) (nval : K → N) (π : 
   unfold unAdj
   rw [hout k hk]
   exact List.Perm.append (List.Perm.refl _) hinn
+
+/-! ## byte level (JSON)
+`Model/Json.lean` is a byte-level model of `serde_json` for the document type the harness instantiates
+(`K = usize`, `N = i64`, `E = u32`): `Json.print` is what `serde_json::to_vec` writes, `Json.parse` what
+`serde_json::from_slice` accepts (the correspondence check compares it with the real parser on raw bytes). -/
+
+/-- what is written parses back to exactly the document, for every document whose payloads fit their types -/
+theorem Json.parse_print (d : Json.Doc) (h : Json.InRange d) : Json.parse (Json.print d) = some d :=
+  Json.parse_print' d h
+
+/-- the whole round trip at byte level: serialising a closed container whose payloads fit their types and
+    deserialising the bytes gives the same keys, node values and outgoing lists, mirrored -/
+theorem Json.roundtrip_bytes (s : Store Nat Nat) (nval : Nat → Int) (π : List Nat) (hnd : π.Nodup)
+    (hclosed : ∀ k ∈ π, ∀ p ∈ (s.get k).out, p.1 ∈ π) (hr : Json.InRange (decompose s nval π)) :
+    ∃ s', Json.deJson (Json.serJson s nval π) = some (π.map (fun k => (k, nval k)), s') ∧
+      (∀ k ∈ π, (s'.get k).out = (s.get k).out) ∧ Mirror s' :=
+  Json.roundtrip_bytes' s nval π hnd hclosed hr
+
+example : Json.parse (Json.print ([(0, -3), (7, 12)], [(0, 7, 4000000000), (7, 7, 0)])) =
+    some ([(0, -3), (7, 12)], [(0, 7, 4000000000), (7, 7, 0)]) := by decide +kernel
 
 end G
